@@ -817,7 +817,8 @@ class ContentElement(TTMLElement):
 
       self.explicit_end = imsc_attr.EndAttribute.extract(self.temporal_context, xml_elem)
 
-      if parent_ctx.time_container.is_par():
+      if parent_ctx.time_container.is_par() or parent_ctx.implicit_end is None:
+        # in a sequential time container, the first child of a parent with indefinite duration also begins at 0
         self.implicit_begin = Fraction(0)
       else:      
         self.implicit_begin = parent_ctx.implicit_end - parent_ctx.desired_begin
@@ -842,6 +843,8 @@ class ContentElement(TTMLElement):
 
       is_inline_animation_complete = False
 
+      is_seq_exhausted = False
+
       for child_xml_element in xml_elem:
 
         if issubclass(self.ttml_class, RegionElement) and StyleElement.is_instance(child_xml_element):
@@ -850,9 +853,17 @@ class ContentElement(TTMLElement):
           StyleElement.from_xml(self, child_xml_element)
           continue
 
+        if is_seq_exhausted:
+          # in a sequential time container, nothing begins after a child that never ends
+          LOGGER.warning("Ignoring an element that follows an element of indefinite duration in a sequential time container")
+          continue
+
         child_element = ContentElement.from_xml(self, child_xml_element)
 
         if child_element is not None:
+
+          if self.time_container.is_seq() and child_element.desired_end is None:
+            is_seq_exhausted = True
 
           if issubclass(child_element.ttml_class, SetElement):
             if is_inline_animation_complete:
